@@ -63,7 +63,7 @@ class Prop(PropBase):
     n_cases = {'quick': 360, 'thorough': 14000}
     rule = ('cases = (a) schedules: 2-3 real threads, 1-3 operations each (get with succeeding / '
             'raising creator, clear) on 1-3 keys of one real Cache (directly, or behind '
-            'Loader.get_pipeline with (parent, name) requests incl. ones whose keys collide), an '
+            'Loader.get_pipeline with (parent, name) requests incl. the ones that collided under the pre-0c7650b joined-string key), an '
             'arbitrary interleaving at instruction granularity (lock-acquire, membership test, load, '
             'creator-enter, creator-exit, store, release, return) followed by a round-robin suffix '
             'that lets every thread finish (85%) or cut off mid-flight (15%); no_cache on in 15%; '
